@@ -81,15 +81,29 @@ class Builder:
         base = os.path.join(ROOT, 'build')
         ds = [d for d in os.listdir(base) if re.fullmatch(r'[0-9a-f]{16}', d) and d != self.key]
         ds.sort(key=lambda d: os.path.getmtime(os.path.join(base, d)), reverse=True)
-        # keep the newest other tree and anything touched in the last 90 minutes (a concurrent run
-        # against another tree, e.g. the seeded-change audit, may still be executing from it)
+        # keep the newest other tree and anything touched in the last 10 minutes: a run that is still
+        # executing from a build directory touches it once a minute (see keep_alive)
         now = time.time()
         for d in ds[1:]:
-            if now - os.path.getmtime(os.path.join(base, d)) > 5400:
+            if now - os.path.getmtime(os.path.join(base, d)) > 600:
                 shutil.rmtree(os.path.join(base, d), ignore_errors=True)
 
     def path(self, name):
         return os.path.join(self.dir, name)
+
+    def keep_alive(self):
+        """Touches the build directory once a minute for as long as this process lives, so that a concurrent
+        run against another tree does not evict it."""
+        import threading
+        d = self.dir
+        def loop():
+            while True:
+                try:
+                    os.utime(d, None)
+                except OSError:
+                    return
+                time.sleep(60)
+        threading.Thread(target=loop, daemon=True).start()
 
     def compile_many(self, units, tolerate=False):
         """units: [(src, obj, flags)] -> compiles the missing ones in parallel. With tolerate=True a unit
@@ -473,6 +487,7 @@ def do_replay(prop, P, path, seed):
 def do_check(prop, P, tier, seed):
     t0 = time.time()
     with Builder() as b:
+        b.keep_alive()
         jobs = P['jobs'](b, prop, tier, seed)
         b.evict()
     if jobs is None:
